@@ -296,13 +296,14 @@ def scripted_client(fname):
     return Scripted()
 
 
-def run_transaction(fname, q, ctx, addr=0, fill=0x1234, unit=5):
+def run_transaction(fname, q, ctx, addr=0, fill=0x1234, unit=5, cli=None):
     """one real client transaction against the frame the server side builds.
     -> dict(pred, frame, pdu, esc, fc, mbap, asked, left, outcome, cls, exception)"""
     from pymodbus.factory import ServerDecoder
     _, req = build(q, addr, fill)
     req.unit_id = unit
-    cli = scripted_client(fname)
+    cli = cli or scripted_client(fname)
+    cli.asked, cli.sent = [], []
     # what the server does with this request (the client has not touched the object yet; the
     # prediction's rewrite of .message does not change the encoding)
     _, sreq = build(q, addr, fill)
@@ -348,8 +349,8 @@ def run_transaction(fname, q, ctx, addr=0, fill=0x1234, unit=5):
             "frame_hex": frame[:24].hex()}
 
 
-def recv_case(fname, q, ctx, label, addr=0, fill=0x1234):
-    o = run_transaction(fname, q, ctx, addr, fill)
+def recv_case(fname, q, ctx, label, addr=0, fill=0x1234, cli=None):
+    o = run_transaction(fname, q, ctx, addr, fill, cli=cli)
     term = ("{| rc_f := %s; rc_pred := %s; rc_frame := %s; rc_pdu := %s; rc_esc := %s; rc_fc := %s; "
             "rc_mbap := %s; rc_asked := %s; rc_left := %s |}"
             % (fname, optz(o["pred"]), z(o["frame"]), z(o["pdu"]), z(o["esc"]), z(o["fc"]), z(o["mbap"]),
@@ -415,6 +416,20 @@ def suite_recv(tier):
     cases = []
     for fname in FRAMINGS:
         silent_unit_on_another_client(fname)
+        # ONE client object through a history: its unit stays silent once, answers the next request normally (which
+        # takes it off the list of silent units again), and then replies — normally or with an exception — to the
+        # request of the case: that reply must be read like any first reply (function-code probe, then the rest)
+        for q, label, addr, fill in (reqs[:2] + [x for x in reqs if x[1] == "exception"][:4] + [x for x in reqs if x[1] == "read-regs"][:2]):
+            cli = scripted_client(fname)
+            _, rq = build(("QReadHolding", 1), 0, 0)
+            rq.unit_id = 5
+            cli.reply = b""
+            try:
+                cli.execute(rq)                     # silent
+            except Exception:  # noqa: BLE001
+                pass
+            run_transaction(fname, ("QReadHolding", 2), ctx, 0, 0, cli=cli)      # answered normally
+            cases.append(recv_case(fname, q, ctx, "after-silent-then-answered:" + label, addr, fill, cli=cli))
         for q, label, addr, fill in reqs:
             cases.append(recv_case(fname, q, ctx, label, addr, fill))
     return Suite("recv", IMPORTS, "chk_recv", cases, shard=300)
